@@ -148,6 +148,33 @@ func checkC14(c *mc.Ctx) {
 	}
 	c.Ev.AddScenario(mc.Scenario{Name: "mixed loops", SpaceSize: np*2 + 1, Executed: np*2 + 1, Exhaustive: true, Bound: "empty loop, all ordered pairs of the 26 tag families, one triple per pair"})
 	c.Ev.DistinctAdd(np * 2)
+	// long loops: the 12-bit loop length over its whole range (every single-bit value and the
+	// maximum), built from user-defined descriptors of chosen sizes
+	var nl int64
+	for _, target := range []int{255, 256, 257, 511, 512, 513, 1023, 1024, 1025, 1028, 2047, 2048, 2049, 3072, 4094, 4095} {
+		var ds []*astits.Descriptor
+		rest := target
+		for i := 0; rest > 0; i++ {
+			n := 257
+			if rest < n {
+				n = rest
+			}
+			if n == 1 { // a descriptor needs at least its 2-byte header: borrow from the previous one
+				ds[len(ds)-1].UserDefined = ds[len(ds)-1].UserDefined[:len(ds[len(ds)-1].UserDefined)-1]
+				n = 2
+			}
+			ds = append(ds, &astits.Descriptor{Tag: uint8(0x80 + i%0x7f), UserDefined: fillBytes(n-2, uint8(i))})
+			rest -= n
+		}
+		if len(ref.DescLoop(ds)) != target {
+			panic("long loop construction")
+		}
+		c14Decode(c, ds, "long-loop")
+		c14Encode(c, ds, 0, "long-loop")
+		nl++
+	}
+	c.Ev.AddScenario(mc.Scenario{Name: "long loops", SpaceSize: nl * 2, Executed: nl * 2, Exhaustive: true, Bound: "descriptor loops of 255..4095 bytes: every single-bit loop length +-1 and the 12-bit maximum"})
+	c.Ev.Class("loop-over-1023-bytes", nl)
 	// malformed input: declared length != body length, sentinel follows
 	sentinel := []byte{0x52, 1, 0x99}
 	var nm int64
@@ -185,5 +212,5 @@ func checkC14(c *mc.Ctx) {
 		}
 	}
 	c.Ev.AddScenario(mc.Scenario{Name: "malformed declared lengths", SpaceSize: nm, Executed: nm, Exhaustive: true, Bound: "every tag family x declared length {0,1,half,body-1,body+1,body+3}, sentinel descriptor after it"})
-	c.Ev.Require("tag:VBIData", "tag:Unknown", "tag:UserDefined", "malformed-sentinel-intact")
+	c.Ev.Require("tag:VBIData", "tag:Unknown", "tag:UserDefined", "malformed-sentinel-intact", "loop-over-1023-bytes")
 }
